@@ -14,11 +14,20 @@ ops
   twin            (after start) a second, independent lock object: `twin ok` (the model's state is the state
                   of ONE lock object; another object has its own state, nothing is shared)
   null OP         `p_rwlock_<OP> (NULL)`: FALSE, nothing touched: `null OP ret=0`
-  explore N       (not part of the diff protocol) dump the reachable state graph of the current
-                  programs, at most N states
+  fail T          thread T performs the primitive call it is suspended at (L: p_mutex_lock, W: p_cond_variable_wait,
+                  S: signal, C: broadcast, U: p_mutex_unlock) and that call returns FALSE (`PV.RWLock.failStep`)
+  free            (after start) `p_rwlock_free (lock)`: `free struct=1 mutex=1 cv=2`; only `reset` may follow
+  newfail K       `p_rwlock_new ()` whose allocation number K fails (0 struct, 1 mutex, 2 read_cv, 3 write_cv):
+                  `newfail K ret=NULL struct=.. mutex=.. cv=..` (what was released)
+  explore N [F]   (not part of the diff protocol) dump the reachable state graph of the current
+                  programs, at most N states, with at most F failing primitive calls on a path (default 0)
 
 status line
-  m=<owner|-> a=<active hex> w=<waiting hex> | <thread>… [!DEADLOCK] [!UNSAFE]
+  m=<owner|-> a=<active hex> w=<waiting hex> | <thread>… [!DEADLOCK] [!UNSAFE] [!TRYBLOCK] [!INCONSISTENT]
+  !INCONSISTENT (sticky; disciplined programs only): at a moment when the internal mutex is free the counter fields
+  of `active_threads` differ from the numbers of user-level holders ("a lock call that fails does not count as holding,
+  a call that succeeds does").  After a `fail` op a deadlock is no property violation (the liveness half of the
+  property assumes primitives that work): `!DEADLOCK` is then printed without a SPECDIFF part.
   thread = <pc>/<last return>+<ops left>,  pc = L.op (at mutex_lock)  W.op.cv (at wait)  B.op.cv (blocked)
            K.op.cv (woken)  S.op.cv (at signal)  C.op.cv (at broadcast)  U.op (at mutex_unlock)  D (done)
 The part after the model's answer, `SPECDIFF <line without flags>`, is the spec's answer: the
@@ -81,6 +90,7 @@ def deadlocked (s : State) : Bool :=
 structure Oracle where
   holders : List (Tid × Bool) := []     -- (thread, isWriter)
   unsafeSeen : Bool := false
+  inconsistentSeen : Bool := false
 
 def Oracle.before (o : Oracle) (s : State) (t : Tid) : Oracle :=
   match s.threads[t]? with
@@ -99,16 +109,38 @@ def Oracle.after (o : Oracle) (s : State) (t : Tid) : Oracle :=
        if op.isAcq then
          let w := (op == .wlock || op == .wtry)
          let bad := if w then !o.holders.isEmpty else o.holders.any (·.2)
-         { holders := (t, w) :: o.holders, unsafeSeen := o.unsafeSeen || bad }
+         { o with holders := (t, w) :: o.holders, unsafeSeen := o.unsafeSeen || bad }
        else o
      | _ => o)
   | none => o
+
+/-- a failed final `p_mutex_unlock` of a granted acquire: the call returns FALSE, the thread is no holder -/
+def Oracle.failed (o : Oracle) (s : State) (t : Tid) : Oracle :=
+  match s.threads[t]? with
+  | some th =>
+    (match th.pc with
+     | .atUnlock op true => if op.isAcq then { o with holders := o.holders.erase (t, (op == .wlock || op == .wtry)) } else o
+     | _ => o)
+  | none => o
+
+/-- the consistency oracle, evaluated on the state after an op -/
+def Oracle.check (o : Oracle) (s : State) (nospec : Bool) : Oracle :=
+  if nospec || s.mutex.isSome then o
+  else
+    let nr := (o.holders.filter (fun h => !h.2)).length
+    let nw := (o.holders.filter (·.2)).length
+    if (READER_COUNT s.active).toNat == nr && (WRITER_COUNT s.active).toNat == nw then o
+    else { o with inconsistentSeen := true }
 
 structure St where
   progs : List (List Op) := []
   s : Option State := none
   o : Oracle := {}
   nospec : Bool := false
+  /-- threads on the zero-reader-count path of `p_rwlock_reader_unlock` (between its two own steps) -/
+  zero : List Tid := []
+  failSeen : Bool := false
+  freed : Bool := false
 
 /-- is some thread at / inside / returning from a condition-variable wait on behalf of a trylock call
     (never, by `PV.Props.C02.try_never_waits`; the harness's oracle flag of the same name is sticky) -/
@@ -118,11 +150,15 @@ def tryBlocked (s : State) : Bool :=
     | .atWait op _ | .blocked op _ | .woken op _ => op == .rtry || op == .wtry
     | _ => false
 
-def statusLine (s : State) (o : Oracle) (nospec : Bool := false) : String :=
+def statusLine (s : State) (o : Oracle) (nospec : Bool := false) (failSeen : Bool := false) : String :=
   let core := statusCore s
-  let flags := (if deadlocked s then " !DEADLOCK" else "") ++ (if o.unsafeSeen then " !UNSAFE" else "") ++
-    (if tryBlocked s then " !TRYBLOCK" else "")
-  if flags.isEmpty then core else if nospec then core ++ flags else core ++ flags ++ " SPECDIFF " ++ core
+  let dl := if deadlocked s then " !DEADLOCK" else ""
+  let safety := (if o.unsafeSeen then " !UNSAFE" else "") ++
+    (if tryBlocked s then " !TRYBLOCK" else "") ++ (if o.inconsistentSeen then " !INCONSISTENT" else "")
+  let flags := dl ++ safety
+  if flags.isEmpty then core else if nospec then core ++ flags
+  else if failSeen then (if safety.isEmpty then core ++ flags else core ++ flags ++ " SPECDIFF " ++ core ++ dl)
+  else core ++ flags ++ " SPECDIFF " ++ core
 
 /-! ### state graph dump -/
 
@@ -130,6 +166,29 @@ def stateKey (s : State) : String :=
   statusCore s ++ " ; " ++ " ".intercalate (s.threads.map fun th =>
     (match th.held with | .none => "n" | .r => "r" | .w => "w") ++ ":" ++ ",".intercalate (th.prog.map opName) ++
     (match th.pc with | .atUnlock _ r => if r then "T" else "F" | _ => ""))
+
+/-- exploration node: model state, threads on the zero path of reader_unlock, failures still allowed -/
+structure Node where
+  s : State
+  zero : List Tid := []
+  fails : Nat := 0
+  deriving Inhabited
+
+def nodeKey (n : Node) : String :=
+  stateKey n.s ++ " z" ++ ",".intercalate (n.zero.map toString) ++ " f" ++ toString n.fails
+
+/-- is `t` about to take the zero-reader-count path of reader_unlock with a normal step -/
+def entersZero (s : State) (t : Tid) : Bool :=
+  match s.threads[t]? with
+  | some th => th.pc == .lock .runlock && READER_COUNT s.active == 0
+  | none => false
+
+def canFail (s : State) (t : Tid) : Bool :=
+  match s.threads[t]? with
+  | some th => (match th.pc with
+    | .lock _ | .atWait _ _ | .atSignal _ _ | .atBcast _ _ | .atUnlock _ _ => true
+    | _ => false)
+  | none => false
 
 /-- all labelled successors of a state: (`run T` | `run T U` | `spur T`, successor) -/
 def successors (s : State) : List (String × State) := Id.run do
@@ -160,10 +219,34 @@ def successors (s : State) : List (String × State) := Id.run do
         | none => pure ()
   return out.reverse
 
-partial def explore (init : State) (maxStates : Nat) : IO Unit := do
+def thread_of_label (lbl : String) : Nat :=
+  match lbl.splitOn " " with
+  | _ :: t :: _ => t.toNat?.getD 0
+  | _ => 0
+
+def nodeSuccessors (n : Node) : List (String × Node) :=
+  let normal := (successors n.s).map fun (lbl, s') =>
+    let t := thread_of_label lbl
+    if lbl.startsWith "run" then
+      (lbl, { n with s := s', zero := if entersZero n.s t then t :: n.zero.erase t else n.zero.erase t })
+    else (lbl, { n with s := s' })
+  let failing := if n.fails = 0 then [] else
+    (List.range n.s.threads.length).filterMap fun t =>
+      if canFail n.s t then
+        (failStep n.s t (n.zero.contains t)).map fun s' => (s!"fail {t}", { s := s', zero := n.zero.erase t, fails := n.fails - 1 })
+      else none
+  normal ++ failing
+
+partial def explore (init : State) (maxStates : Nat) (fails : Nat := 0) : IO Unit := do
+  let init : Node := { s := init, fails := fails }
+  let stateKey := nodeKey
+  let successors := nodeSuccessors
+  let allDone := fun (n : Node) => PV.RWLock.allDone n.s
+  let deadlocked := fun (n : Node) => PV.Driver.RWLock.deadlocked n.s
+  let statusCore := fun (n : Node) => PV.Driver.RWLock.statusCore n.s
   let mut ids : Std.HashMap String Nat := {}
   ids := ids.insert (stateKey init) 0
-  let mut todo : Array State := #[init]
+  let mut todo : Array Node := #[init]
   let mut next := 0
   let mut nTrans := 0
   let mut truncated := false
@@ -211,22 +294,49 @@ def step (st : St) (toks : List String) : IO (St × Bool) := do
       let pick := match s.threads[t]? with
         | some th => (match th.pc with | .atSignal _ _ => pick | _ => none)
         | none => none
+      if st.freed then IO.println "bad-op"; return (st, false)
       match stepThread cfg s t pick with
       | none => IO.println "not-enabled"; return (st, false)
       | some s' =>
-        let o := (st.o.before s t).after s t
-        IO.println (statusLine s' o st.nospec); return ({ st with s := some s', o := o }, false)
+        let o := ((st.o.before s t).after s t).check s' st.nospec
+        let zero := if entersZero s t then t :: st.zero.erase t else st.zero.erase t
+        IO.println (statusLine s' o st.nospec st.failSeen); return ({ st with s := some s', o := o, zero := zero }, false)
     | _, _, _ => IO.println "bad-op"; return (st, false)
+  | ["fail", t] =>
+    match st.s, t.toNat? with
+    | some s, some t =>
+      if st.freed then IO.println "bad-op"; return (st, false)
+      match failStep s t (st.zero.contains t) with
+      | none => IO.println "not-enabled"; return (st, false)
+      | some s' =>
+        let o := (st.o.failed s t).check s' st.nospec
+        IO.println (statusLine s' o st.nospec true)
+        return ({ st with s := some s', o := o, zero := st.zero.erase t, failSeen := true }, false)
+    | _, _ => IO.println "bad-op"; return (st, false)
+  | ["free"] =>
+    if st.s.isNone || st.freed then IO.println "bad-op"; return (st, false)
+    let r := freeAll
+    IO.println s!"free struct={r.structs} mutex={r.mutexes} cv={r.condvars}"; return ({ st with freed := true }, false)
+  | ["newfail", k] =>
+    match k.toNat? with
+    | some k =>
+      if k > 3 then IO.println "bad-op"; return (st, false)
+      let r := newFail k
+      IO.println s!"newfail {k} ret=NULL struct={r.structs} mutex={r.mutexes} cv={r.condvars}"; return (st, false)
+    | none => IO.println "bad-op"; return (st, false)
   | ["spur", t] =>
     match st.s, t.toNat? with
     | some s, some t =>
       match spurious s t with
       | none => IO.println "not-enabled"; return (st, false)
-      | some s' => IO.println (statusLine s' st.o st.nospec); return ({ st with s := some s' }, false)
+      | some s' =>
+        if st.freed then IO.println "bad-op"; return (st, false)
+        let o := st.o.check s' st.nospec
+        IO.println (statusLine s' o st.nospec st.failSeen); return ({ st with s := some s', o := o }, false)
     | _, _ => IO.println "bad-op"; return (st, false)
   | ["reset"] => IO.println "ok"; return ({}, false)
   | ["twin"] =>
-    if st.s.isNone then IO.println "bad-op"; return (st, false)
+    if st.s.isNone || st.freed then IO.println "bad-op"; return (st, false)
     IO.println "twin ok"; return (st, false)
   | ["null", op] =>
     match parseOp op with
@@ -239,6 +349,10 @@ def step (st : St) (toks : List String) : IO (St × Bool) := do
     match n.toNat? with
     | some n => explore (init st.progs) n; return (st, false)
     | none => IO.println "bad-op"; return (st, false)
+  | ["explore", n, f] =>
+    match n.toNat?, f.toNat? with
+    | some n, some f => explore (init st.progs) n f; return (st, false)
+    | _, _ => IO.println "bad-op"; return (st, false)
   | _ => IO.println "bad-op"; return (st, false)
 
 def run : IO Unit := do
@@ -263,6 +377,14 @@ def stepPosix (_ : Unit) (toks : List String) : IO (Unit × Bool) := do
   | ["new", code] =>
     match code.toInt? with
     | some code => IO.println s!"new ret={if Posix.newOk true code then 1 else 0}"; return ((), false)
+    | none => IO.println "bad-op"; return ((), false)
+  -- `p_rwlock_free`: one `pthread_rwlock_destroy` on the object's own handle; the object is released whatever the code
+  | ["free", code] =>
+    match code.toInt? with
+    | some code =>
+      let (destroyCalled, released) := Posix.freeResult code
+      IO.println s!"free pthread={if destroyCalled then "destroy" else "none"} handle=own released={if released then 1 else 0}"
+      return ((), false)
     | none => IO.println "bad-op"; return ((), false)
   -- every call goes to the handle inside the lock object it is given (`&lock->hdl`, `&ret->hdl`)
   | ["ident"] => IO.println "ident ok"; return ((), false)
